@@ -335,7 +335,60 @@ def _run_check(prop, tier, spec, wd, t0):
             r, inc = fuzzleg.run(prop, i, leg, wd, key)
             results += r
             inconclusive += inc
+    results += run_regress(prop, spec, wd, built)
     return verdict(prop, tier, spec, results, inconclusive, extra_cov, t0)
+
+
+def run_regress(prop, spec, wd, built):
+    """Replays every saved shrunk failure under regress/<prop>/ without rapid (seconds-long tier)."""
+    files = sorted(glob.glob(os.path.join(VERIF, "regress", prop, "*.json")))
+    out = []
+    for n, f in enumerate(files):
+        try:
+            viol = json.load(open(f))
+        except Exception:
+            continue
+        if viol.get("replay_module"):
+            continue
+        test = viol.get("test")
+        leg = None
+        for tier in ("quick", "thorough"):
+            for l in spec.get(tier, []):
+                if l.get("test") == test:
+                    leg = l
+        if leg is None:
+            continue
+        key = (leg["pkg"], bool(leg.get("race")), bool(leg.get("overlay")))
+        if key not in built:
+            o = os.path.join(wd, "%s%s%s.test" % (leg["pkg"], "-race" if key[1] else "", "-ov" if key[2] else ""))
+            if not build_test(leg["pkg"], o, race=key[1], overlay=key[2]):
+                continue
+            built[key] = o
+        od = os.path.join(wd, "regress%d" % n)
+        os.makedirs(os.path.join(od, "scratch"), exist_ok=True)
+        env = go_env({"VERIF_OUT": od, "VERIF_REPLAY": f, "VERIF_SHARD": str(900 + n), "VERIF_PROP": prop,
+                      "VERIF_SCRATCH": os.path.join(od, "scratch"), "GORACE": "halt_on_error=1 exitcode=66"})
+        for k, v in leg.get("env", {}).items():
+            env[k] = str(v)
+        lp = os.path.join(od, "log.txt")
+        with open(lp, "w") as lf:
+            p = subprocess.Popen([built[key], "-test.run", "^%s$" % test, "-test.timeout", "120s"],
+                                 cwd=od, env=env, stdout=lf, stderr=subprocess.STDOUT)
+            try:
+                rc = p.wait(timeout=150)
+            except subprocess.TimeoutExpired:
+                p.kill()
+                rc = -9
+        sh = Shard(900 + n, p, od, lp, 0)
+        r = collect_shard(prop, sh, rc)
+        r["regress_file"] = f
+        if r["data"]:
+            r["data"]["evaluations"] = 0  # replays are not generated cases
+            r["data"]["nontrivial_hashes"] = []
+            r["data"]["samples"] = []
+            r["data"]["counters"] = {"regress_replays": 1}
+        out.append(r)
+    return out
 
 
 def verdict(prop, tier, spec, results, inconclusive, extra_cov, t0):
